@@ -121,8 +121,11 @@ type Lab struct {
 	Universe *fedlab.Universe
 	Engine   *engine.ExecutionEngine
 	Exec     *fedlab.ExecServer
+	Schema   *graphql.Schema
 	id       string
 	cancel   context.CancelFunc
+
+	planConfig plan.Configuration
 
 	mu  sync.Mutex
 	run *runState
@@ -163,6 +166,7 @@ func NewLab(cfg *fedlab.Config, u *fedlab.Universe, exec *fedlab.ExecServer) (*L
 	if err != nil {
 		return nil, fmt.Errorf("supergraph schema: %w", err)
 	}
+	l.Schema = schema
 	conf := engine.NewConfiguration(schema)
 	for _, g := range cfg.Subgraphs {
 		sdl := cfg.SubgraphSDL(g)
@@ -183,8 +187,11 @@ func NewLab(cfg *fedlab.Config, u *fedlab.Universe, exec *fedlab.ExecServer) (*L
 			return nil, fmt.Errorf("subgraph %s datasource: %w", g.Name, err)
 		}
 		conf.AddDataSource(ds)
+		l.planConfig.DataSources = append(l.planConfig.DataSources, ds)
 	}
 	conf.SetFieldConfigurations(cfg.FieldConfigurations())
+	l.planConfig.Fields = cfg.FieldConfigurations()
+	l.planConfig.DefaultFlushIntervalMillis = engine.DefaultFlushIntervalInMilliseconds
 	eng, err := engine.NewExecutionEngine(ctx, abstractlogger.Noop{}, conf, resolve.ResolverOptions{MaxConcurrency: 1024})
 	if err != nil {
 		return nil, err
